@@ -23,7 +23,7 @@ pub fn small_strings(max_len: usize) -> Vec<String> {
 /// every single deviation of a valid instance: one character inserted / deleted / substituted
 /// (one representative per character class), one line duplicated / removed / added / emptied
 pub fn boundary_mutations(s: &str) -> Vec<String> {
-    let reps = ['A', 'a', '1', '/', ',', '.', '-', ':', '+', ' ', '\n', '{', '\u{e9}', '\u{0660}', '~'];
+    let reps = ['A', 'a', 'Z', '0', '1', '6', '9', '/', ',', '.', '-', ':', '+', ' ', '\n', '{', '\u{e9}', '\u{0660}', '~'];
     let cs: Vec<char> = s.chars().collect();
     let mut out = vec![];
     for i in 0..=cs.len() {
